@@ -382,3 +382,30 @@ def program_st(draw, max_features=3, faults=True, cfg=None, peek=True, relog=Fal
                 # environment.py installs its own handler for cleanup errors (context.on_cleanup_error)
                 prog["cleanup_handler"] = draw(st.sampled_from(["true", "none", "builtin-ignore"]))
     return prog
+
+
+@st.composite
+def nestify(draw, prog, sub_outcomes=("pass", "pass", "fail", "raise"), p=4, strip_wip=False):
+    """Turn some passing steps of plain scenarios into steps that execute other steps (context.execute_steps());
+    returns the number of such steps.  strip_wip: no @wip anywhere (a pending sub-step is then a plain 'pending')."""
+    count = 0
+    for f in prog["features"]:
+        if strip_wip:
+            f["tags"] = [t for t in f["tags"] if t != "wip"]
+        for it in f["items"]:
+            if strip_wip:
+                it["tags"] = [t for t in it["tags"] if t != "wip"]
+            for sub in (it["items"] if it["k"] == "r" else [it]):
+                if strip_wip:
+                    sub["tags"] = [t for t in sub["tags"] if t != "wip"]
+                    for ex in sub.get("ex") or []:
+                        ex["tags"] = [t for t in ex["tags"] if t != "wip"]
+                if sub["k"] != "s":
+                    continue
+                for s in sub["steps"]:
+                    if s["o"] == "pass" and not s.get("a") and draw(st.integers(0, p - 1)) == 0:
+                        count += 1
+                        s["o"] = "nest"
+                        s["sub"] = [{"uid": "n%d_%d" % (count, k), "o": draw(st.sampled_from(list(sub_outcomes)))}
+                                    for k in range(draw(st.integers(1, 3)))]
+    return count
